@@ -319,3 +319,33 @@ def r_zipeq(ctx, fn: core.FuncInfo, rule: str = 'R-ZIPEQ') -> None:
                     # must be in a conjunction with the element-wise test (same BoolOp And) or an earlier early-exit
                     lens = True
         ctx.check(strict or lens, rule, fn, f'element-wise comparison over zip({a}, {b}) is paired with a length comparison (a strict prefix must not compare equal)', z, key=f'zip:{a},{b}')
+
+
+# --------------------------------------------------------------------------------------------------
+# order preservation
+# --------------------------------------------------------------------------------------------------
+ORDER_BREAKERS = {'sorted', 'set', 'frozenset', 'reversed', 'shuffle', 'sample', 'fromkeys', 'sort', 'reverse', 'Counter', 'heapify'}
+
+
+def order_preserving(expr: ast.AST, source_text: str) -> tuple[bool, str]:
+    """Is ``expr`` an order-preserving image of the sequence written ``source_text``?  Accepted: the sequence itself,
+    list/tuple()/map over it, a single-generator comprehension or generator over it without filters, slices [:]; any
+    call of sorted/set/reversed/... or a set/dict comprehension breaks the order."""
+    text = core.src(expr)
+    if source_text not in text:
+        return False, f'does not derive from {source_text}'
+    for n in ast.walk(expr):
+        if isinstance(n, ast.Call):
+            last = (core.call_name(n) or '').split('.')[-1]
+            if last in ORDER_BREAKERS:
+                return False, f'passes through {last}()'
+        if isinstance(n, (ast.SetComp, ast.Set, ast.DictComp)):
+            return False, 'collected into an unordered container'
+        if isinstance(n, (ast.ListComp, ast.GeneratorExp)):
+            if len(n.generators) != 1:
+                return False, 'nested generators'
+            if n.generators[0].ifs:
+                return False, 'filtered (positions shift)'
+        if isinstance(n, ast.Subscript) and isinstance(n.slice, ast.Slice) and n.slice.step is not None:
+            return False, 'strided slice'
+    return True, 'order preserved'
